@@ -33,11 +33,13 @@ BigFails(o) ==
         THEN {} ELSE {"contains_true_outside_bbox"})
   \cup (IF o.kind \in {"circle", "ellipse"} /\ \E i \in 1..Len(o.probes) : corner(<<o.probes[i][1], o.probes[i][2]>>) /\ o.probes[i][3] = 1
         THEN {"big_curve_contains_its_box_corner"} ELSE {})
-  \cup (IF \A i \in 1..Len(o.probes) : centre(<<o.probes[i][1], o.probes[i][2]>>) => o.probes[i][3] = 1
+  \cup (IF o.kind = "triangle" \/ \A i \in 1..Len(o.probes) : centre(<<o.probes[i][1], o.probes[i][2]>>) => o.probes[i][3] = 1
         THEN {} ELSE {"big_shape_misses_its_centre"})
   \cup (IF /\ \A i \in 1..Len(o.first) : InRect(b, o.first[i])
            /\ \A i \in 1..(Len(o.first) - 1) : RMLess(o.first[i], o.first[i + 1])
         THEN {} ELSE {"big_first_points"})
+  \* ... and contains() accepts every one of them
+  \cup (IF \A i \in 1..Len(o.first_in) : o.first_in[i] = 1 THEN {} ELSE {"big_first_points_not_contained"})
 
 \* points() observed through other Iterator methods (o.proto, recorded when next() showed the sequence o.pr of o.np
 \* points to be finite): they all describe the same sequence
